@@ -22,6 +22,7 @@ type C17Case struct {
 	Case    *CheckCase  `json:"case"`
 	Files   []FileShape `json:"files"`
 	ViaFlag bool        `json:"via_flag,omitempty"` // the first file is also named with -rapid.failfile
+	Repro   bool        `json:"repro,omitempty"`    // a file that does reproduce a failure sorts after the unusable ones (same seed field)
 }
 
 type c17 struct{}
@@ -74,10 +75,11 @@ func (c17) Gen(dt *drv.T, c *Ctx) any {
 		cs.Files = append(cs.Files, f)
 	}
 	cs.ViaFlag = chance(dt, "viaflag", 20)
+	cs.Repro = chance(dt, "repro", 45)
 	return cs
 }
 
-func materialize(f FileShape, path, version string, template []byte) {
+func materialize(f FileShape, path, version string, template []byte, seed uint64) {
 	write := func(b []byte) {
 		if err := os.WriteFile(path, b, 0o664); err != nil {
 			panic(err)
@@ -120,7 +122,7 @@ func materialize(f FileShape, path, version string, template []byte) {
 		if f.Kind == "invalid" && len(words) > 2 {
 			words = words[:2] // too short for most programs: overrun
 		}
-		writeFailFile(path, version, 3, words, "pre-seeded "+f.Kind)
+		writeFailFile(path, version, seed, words, "pre-seeded "+f.Kind)
 	}
 }
 
@@ -153,11 +155,29 @@ func (c17) Run(c *Ctx, csAny any) Outcome {
 	template, _ := os.ReadFile(tpath)
 	_ = os.RemoveAll(tdir)
 
+	// optionally: a file that does reproduce a failure of this program, sorting after all the unusable ones and
+	// carrying the same seed field as the generated well-formed ones
+	var reproBytes []byte
+	var reproInv *Invocation
+	fileSeed := uint64(3)
+	if cs.Repro && ref.Obs.Failed && (ref.Rep.Kind == "failed" || ref.Rep.Kind == "panic") {
+		d3 := EnterCaseDir()
+		cfgw := cfg
+		cfgw.NoFailFile = false
+		rw := runProg(cfgw, prog)
+		if fs := FailFiles(); len(fs) == 1 && rw.Last != nil && rw.Last.Falsified {
+			reproBytes, _ = os.ReadFile(fs[0])
+			reproInv = rw.Last
+			_, fileSeed, _, _ = ParseFailFile(fs[0])
+		}
+		LeaveCaseDir(d3)
+		_ = os.Chdir(d2)
+	}
 	cfg2 := cfg
 	nparse := 0
 	for i, f := range cs.Files {
 		path := strings.TrimSuffix(base, ".fail") + fmt.Sprintf("-u%d.fail", i)
-		materialize(f, path, version, template)
+		materialize(f, path, version, template, fileSeed)
 		out.Classes = append(out.Classes, "file-"+f.Kind)
 		if f.Kind != "symlink" {
 			nparse++
@@ -165,6 +185,13 @@ func (c17) Run(c *Ctx, csAny any) Outcome {
 		if i == 0 && cs.ViaFlag {
 			cfg2.FailFile, _ = filepath.Abs(path)
 		}
+	}
+	reproPath := ""
+	if reproBytes != nil {
+		reproPath = strings.TrimSuffix(base, ".fail") + "-z-reproducing.fail"
+		_ = os.WriteFile(reproPath, reproBytes, 0o664)
+		reproPath, _ = filepath.Abs(reproPath)
+		out.Classes = append(out.Classes, "reproducing-file-after-unusable-ones")
 	}
 	// which files are unusable by the documented format alone (unreadable, malformed, other version)? Decided
 	// by the harness' own parser, independently of the library.
@@ -186,6 +213,29 @@ func (c17) Run(c *Ctx, csAny any) Outcome {
 	r := runProg(cfg2, prog)
 	if r.Obs.Escaped != nil {
 		out.Viol = violf("C17:panic-escaped-check", "files %s: a panic escaped rapid.Check: %v", kinds(cs.Files), r.Obs.Escaped)
+		return out
+	}
+	if reproPath != "" {
+		// unless an earlier (mutated) file is itself a counterexample, the run has to fail from the reproducing file
+		for i := 0; i < len(r.X.Log) && i < nfiles; i++ {
+			if r.X.Log[i].Falsified {
+				if got, _ := filepath.Abs(r.Rep.FailFile); got != reproPath {
+					out.Classes = append(out.Classes, "file-is-a-counterexample")
+					out.NonTrivial = false
+					return out
+				}
+				break
+			}
+		}
+		got, _ := filepath.Abs(r.Rep.FailFile)
+		if !r.Obs.Failed || got != reproPath || r.Rep.After != 0 {
+			out.Viol = violf("C17:unusable-file-shadows-reproducing-one", "files %s followed by a fail file that reproduces a failure: the run reports %q after %d tests from %q (failed=%v), it should fail after 0 tests from %q", kinds(cs.Files), r.Rep.Kind, r.Rep.After, r.Rep.FailFile, r.Obs.Failed, reproPath)
+			return out
+		}
+		if r.FirstBad < 0 || !r.X.Log[r.FirstBad].Same(reproInv) {
+			out.Viol = violf("C17:unusable-file-shadows-reproducing-one", "files %s followed by a reproducing fail file: the replayed test case is not the persisted one", kinds(cs.Files))
+			return out
+		}
 		return out
 	}
 	if r.Rep.FailFile != "" && r.Obs.Failed {
